@@ -156,6 +156,7 @@ structure InvCore (L : Live) (ever : List AreaT) (r : Rec) : Prop where
   sectionsSound : ∀ x ∈ r.sections, ∃ g ∈ r.genes, ∃ d s, LinkedS ever g d s ∧ x = ((d.id, s), g.id)
   sectionsComplete : ∀ g ∈ r.genes, ∀ d s, LinkedS (registered r) g d s → ((d.id, s), g.id) ∈ r.sections
   cover : ∀ aid gid, (aid, gid) ∈ r.members ↔ ∃ s, ((aid, s), gid) ∈ r.sections
+  defsSub : ∀ x ∈ r.defs, x ∈ r.members
   defsSound : ∀ x ∈ r.defs, ∃ g ∈ r.genes, ∃ d, Linked ever g d ∧ defines g d = true ∧ x = (d.id, g.id)
   defsComplete : ∀ g ∈ r.genes, ∀ d, Linked (registered r) g d → defines g d = true → (d.id, g.id) ∈ r.defs
   regionKeys : ∀ x ∈ r.regionOf, ∃ g ∈ r.genes, g.id = x.1
@@ -196,6 +197,14 @@ theorem Eff2.cover {P Q : List (Gene × AreaT × Section)} {r r' : Rec} (h : Eff
     · injection e with e1 e2
       injection e1 with e1 _
       exact Or.inr ⟨t, ht, by rw [e1, e2]⟩
+
+/-- a defining gene is a listed gene -/
+theorem Eff2.defsSub {P : List (Gene × AreaT × Section)} {r r' : Rec} (h : Eff2 P P r r')
+    (hc : ∀ x ∈ r.defs, x ∈ r.members) : ∀ x ∈ r'.defs, x ∈ r'.members := by
+  intro x hx
+  rcases (h.defs x).1 hx with hx | ⟨t, ht, _, e⟩
+  · exact (h.members x).2 (Or.inl (hc x hx))
+  · exact (h.members x).2 (Or.inr ⟨t, ht, e⟩)
 
 /-- adding entries never invalidates a clean cache: clean ones were not touched -/
 theorem Eff2.cache {P Q : List (Gene × AreaT × Section)} {r r' : Rec} (h : Eff2 P Q r r') (c : InvCache r) : InvCache r' := by
